@@ -169,7 +169,8 @@ Definition fill_window (p : lzp) (d : lzd) (n : Z) (tr : list wev) : outcome (lz
   do r <- (if lim <=? read_pos d then move_window p d tr else Ok (d, tr));
   let '(d1, tr1) := r in
   do room <- ck_i32 (as_i32 (buf_size p) - write_pos d1);
-  let len := if room <? as_i32 n then room mod 18446744073709551616 (* as usize *) else n in
+  (* input.len().min(room as usize)  (repaired; see fill_len_old) *)
+  let len := Z.min n (room mod 18446744073709551616) in
   let d_start := write_pos d1 mod 18446744073709551616 in
   let d_end := d_start + len in
   if (buf_size p <? d_end) || (n <? len) then Panic P_INDEX else   (* buf[d_start..d_end], input[..len] *)
@@ -177,6 +178,10 @@ Definition fill_window (p : lzp) (d : lzd) (n : Z) (tr : list wev) : outcome (lz
   do rl <- (if as_i32 (keep_after p) <=? wp then ck_i32 (wp - as_i32 (keep_after p)) else Ok (read_limit d1));
   do r2 <- process_pending p (mkLzd (read_pos d1) rl (finishing d1) wp (pending_size d1)) (EvFill n len :: tr1);
   Ok (fst r2, len, snd r2).
+
+(* the length computation of fill_window before the repair ("write() of a slice of 2 GiB or more
+   panics in fill_window"): `if input.len() as i32 > room { room as usize } else { input.len() }` *)
+Definition fill_len_old (room n : Z) : Z := if room <? as_i32 n then room mod 18446744073709551616 else n.
 
 (* set_flushing / set_finishing *)
 Definition set_flushing (p : lzp) (d : lzd) (tr : list wev) : outcome (lzd * list wev) :=
